@@ -200,7 +200,7 @@ PROPS = {
         rule='programs with `for e in &coll { body }` over collections of 0-3 literals / lists / outer query variables, bodies of 1-2 goals using the loop variable and outer variables, optionally after another goal; emitted as Rust SOURCE inside proto_vulcan!, compiled against the current tree; oracle: the explicit conjunction (reverse collection order) built through the runtime API, answer sequences equal; the reference program goes through the model; non-trivial = >=2 answers or a non-ground answer; distinct = distinct case lines',
         trusted=SEARCH_TRUST + ["syn parsing of the surface syntax is not modelled: the theorems start at the AST; the harness PRINTS ASTs to Rust source, so a parser slip surfaces as a compile error or a disagreement", "compound (struct) patterns, project and fngoal clauses are not generated"],
         assumptions=["the reference elaboration (surf.rs) is the documented meaning: names resolved lexically, one new variable per binder / distinct pattern name / `_`"],
-        open=['the answer-multiset equality with the FORWARD conjunction for arbitrary bodies rests on C04 (conjunct reordering); checked on the real engine via the reference program'],
+        open=['bodies with relation calls / committed choice (outside the conj/conde/fresh bodies of C12_order_irrelevant): equality with the forward conjunction is checked on the real engine via the reference program'],
         macro=True,
     ),
     "C13": dict(
